@@ -33,15 +33,22 @@ while read commit prop; do
   reset
 done < $MX/canaries.txt
 # seeds
-for s in C19-1:C19 C04-1:C04 C07-1:C07 C05-2:C05 C18-1:C18; do
+for s in C19-1:C19 C04-1:C04 C07-1:C07 C05-2:C05 C18-1:C18 C13-1:C13 C13-2:C13; do
   d=${s%%:*}; c=${s##*:}
   git -C $MX/repo apply /verif/seeded/$d/patch.diff 2>/dev/null || { echo "skip  seed $d"; continue; }
   expect "seed $d -> $c alarms" 1 $(run $c); reset
 done
-# benign edits
-for p in /verif/selftest/benign-*.diff; do
+# own mutants (selftest/mut-<Cxx>-n.diff): must be reported by the check of that property
+for p in /verif/selftest/mut-*.diff; do
+  c=$(basename $p | cut -d- -f2)
   git -C $MX/repo apply $p 2>/dev/null || { echo "skip  $(basename $p)"; continue; }
-  expect "benign $(basename $p) -> C07 quiet" 0 $(run C07); reset
+  expect "mutant $(basename $p) -> $c alarms" 1 $(run $c); reset
+done
+# benign edits (selftest/benign-n.diff against C07, selftest/benign-<Cxx>-n.diff against that property)
+for p in /verif/selftest/benign-*.diff; do
+  c=$(basename $p | cut -d- -f2); case $c in C[0-9][0-9]) ;; *) c=C07;; esac
+  git -C $MX/repo apply $p 2>/dev/null || { echo "skip  $(basename $p)"; continue; }
+  expect "benign $(basename $p) -> $c quiet" 0 $(run $c); reset
 done
 # vacuity trap: a contradictory precondition must not verify silently
 sed -i 's|^//@ contract labelToBytes$|//@ contract labelToBytes\n//@   requires len(label) < 0|' $MX/repo/rfc1035label/verif_contracts.go
